@@ -32,7 +32,8 @@ fn main() {
             let gc_off = opt.get("gc-off").map(|s| s == "1").unwrap_or(false);
             let rich = opt.get("rich").map(|s| s == "1").unwrap_or(false);
             let from: usize = opt.get("from").and_then(|s| s.parse().ok()).unwrap_or(0);
-            match yx::yata::random_from(&opt["out-sched"], &opt["out"], seed, from, nb, ops, &ext, gc_off, rich) {
+            let cf = opt.get("cf").map(|s| s == "1").unwrap_or(false);
+            match yx::yata::random_from(&opt["out-sched"], &opt["out"], seed, from, nb, ops, &ext, gc_off, rich || cf, cf) {
                 Ok((nb, nev)) => println!("{{\"behaviours\": {}, \"events\": {}}}", nb, nev),
                 Err(e) => {
                     eprintln!("yx: {}", e);
